@@ -791,6 +791,23 @@ theorem evPA_const (v : Int) (n : Nat) (hv : v = (n : Int)) (hfit : n < 2 ^ 63) 
   rw [prefixAtom_atom _ (by rw [hs]; exact prefix_none_num y ys hy)]
   rw [parseAtom_num _ n hn rest hr.1 0, hv]
 
+theorem evPA_num (v : Int) (n : Nat) (t : Str) (hv : v = (n : Int)) (hn : NumText t n) (rest : Str) (hr : AtomEndB rest) :
+    EvPA (t ++ rest) (.ok (.const v) rest) := by
+  obtain ⟨y, ys, hs, hy⟩ := numText_head _ n hn rest
+  refine ⟨by simp, (0 + 1) + prefixOps.length + 2, ?_⟩
+  rw [prefixAtom_atom _ (by rw [hs]; exact prefix_none_num y ys hy)]
+  rw [parseAtom_num _ n hn rest hr.1 0, hv]
+
+/-- a character literal is its code point -/
+theorem evPA_chr (c : Char) (hc : notChEnd c = true) (rest : Str) :
+    EvPA ('\'' :: c :: '\'' :: rest) (.ok (.const (c.toNat : Int)) rest) := by
+  refine ⟨by simp, (0 + 1) + prefixOps.length + 2, ?_⟩
+  rw [prefixAtom_atom _ (prefix_none_of '\'' _ (by decide))]
+  have hid : identText ('\'' :: c :: '\'' :: rest) = none := by simp +decide [identText]
+  have hec : eConst ('\'' :: c :: '\'' :: rest) = none := by simp +decide [eConst, constAlt, lit, takeWhileP, isDigit]
+  have hch : ch ('\'' :: c :: '\'' :: rest) = some (c, rest) := by simp [ch, hc]
+  simp [parseAtom, hid, hec, hch]
+
 theorem lit_beforeB (t : Str) : ∀ (o : Str), okBefore t o = true → ∀ (c : Char) (rest : Str), ¬ nonStart c →
     lit t (o ++ c :: rest) = none ∨ ∃ y ys, lit t (o ++ c :: rest) = some (y :: ys) ∧ nonStart y := by
   induction t with
@@ -945,7 +962,8 @@ theorem evPA_unB (u : UnOp) (w s' : Str) (e : Expr) (rest : Str) (hw : blanks w)
     one above the operator behind an open binary operation) -/
 inductive Spaced : Nat → Nat → Expr → Str → Prop
   | ident (m : Nat) (s : Str) : isName s → Spaced m top (.ident s) s
-  | const (m : Nat) (v : Int) (n : Nat) : v = (n : Int) → n < 2 ^ 63 → Spaced m top (.const v) (intToDec v)
+  | num (m : Nat) (v : Int) (n : Nat) (t : Str) : v = (n : Int) → NumText t n → Spaced m top (.const v) t
+  | chr (m : Nat) (c : Char) : notChEnd c = true → Spaced m top (.const (c.toNat : Int)) ['\'', c, '\'']
   | un (m k : Nat) (u : UnOp) (e : Expr) (w s : Str) : blanks w → Spaced top k e s →
       Spaced m top (.un u e) (u.text ++ (w ++ s))
   | func (m k : Nat) (name : Str) (a : Expr) (w0 w1 w2 s : Str) : isName name → blanks w0 → blanks w1 → blanks w2 →
@@ -955,6 +973,10 @@ inductive Spaced : Nat → Nat → Expr → Str → Prop
       Spaced m (opLevel op + 1) (.bin op l r) (sl ++ (w1 ++ (op.text ++ (w2 ++ sr))))
   | paren (m k : Nat) (e : Expr) (w0 w1 s : Str) : blanks w0 → blanks w1 → Spaced 0 k e s →
       Spaced m top e ('(' :: (w0 ++ (s ++ (w1 ++ [')']))))
+
+/-- a number below 2^63 in decimal -/
+theorem Spaced.const (m : Nat) (v : Int) (n : Nat) (hv : v = (n : Int)) (hfit : n < 2 ^ 63) : Spaced m top (.const v) (intToDec v) :=
+  .num m v n (intToDec v) hv (by rw [hv]; exact numText_intToDec n hfit)
 
 theorem opLevel_lt_top (op : BinOp) : opLevel op < top := by
   obtain ⟨pre, post, hs, _⟩ := table_entry op
@@ -970,9 +992,13 @@ theorem spaced_head (m k : Nat) (e : Expr) (s : Str) (h : Spaced m k e s) : ∃ 
   | ident m s hs =>
     obtain ⟨x, xs, rfl, hx, _⟩ := hs
     exact ⟨x, xs, rfl, Or.inl hx⟩
-  | const m v n hv hfit =>
-    obtain ⟨y, ys, hy, hs⟩ := exprText_head (.const v) (.const v n hv hfit)
-    exact ⟨y, ys, by simpa [exprText] using hy, hs⟩
+  | num m v n t hv hnt =>
+    obtain ⟨⟨y, ys, hy, hd⟩, _⟩ := hnt
+    refine ⟨y, ys, hy, ?_⟩
+    rcases hd with hd | hd
+    · exact Or.inr (Or.inl hd)
+    · exact Or.inr (Or.inr (Or.inr (Or.inr (Or.inr (Or.inr (Or.inl hd))))))
+  | chr m c hc => exact ⟨'\'', _, rfl, Or.inr (Or.inr (Or.inr (Or.inr (Or.inr (Or.inr (Or.inr rfl))))))⟩
   | un m k u e w s _ _ _ =>
     cases u with
     | minus => exact ⟨'-', _, rfl, Or.inr (Or.inr (Or.inr (Or.inl rfl)))⟩
@@ -1008,9 +1034,12 @@ theorem goesS (m k : Nat) (e : Expr) (s : Str) (h : Spaced m k e s) : GoesS m k 
   | ident m s hs =>
     intro mp rest res _ hr _ hl
     exact evI_intro mp _ _ rest res (evPA_ident s hs rest hr) hl
-  | const m v n hv hfit =>
+  | num m v n t hv hnt =>
     intro mp rest res _ hr _ hl
-    exact evI_intro mp _ _ rest res (evPA_const v n hv hfit rest hr) hl
+    exact evI_intro mp _ _ rest res (evPA_num v n t hv hnt rest hr) hl
+  | chr m c hc =>
+    intro mp rest res _ hr _ hl
+    exact evI_intro mp _ _ rest res (evPA_chr c hc rest) hl
   | un m k u e w s hw hsp ih =>
     intro mp rest res _ hr _ hl
     have hform : u.text ++ (w ++ s) ++ rest = u.text ++ (w ++ (s ++ rest)) := by simp
@@ -1085,7 +1114,7 @@ theorem parse_print_spaced_whole (k : Nat) (e : Expr) (s : Str) (h : Spaced 0 k 
 theorem spaced_render (e : Expr) (h : Wf e) : ∀ m, ∃ k, Spaced m k e (render m e) := by
   induction h with
   | ident s hs => intro m; exact ⟨top, .ident m s hs⟩
-  | const v n hv hn => intro m; exact ⟨top, .const m v n hv hn⟩
+  | const v n hv hn => intro m; exact ⟨top, .num m v n (intToDec v) hv (by rw [hv]; exact numText_intToDec n hn)⟩
   | func name a hn ha ih =>
     intro m
     obtain ⟨k, hk⟩ := ih 0
@@ -1128,5 +1157,13 @@ example : ∃ k, Spaced 0 k (.bin .add (.ident ['a']) (.bin .mul (.const 2) (.fu
       Spaced.bin _ top top .mul _ _ [] [] _ _ (by decide) (hb _ (Or.inl rfl)) (hb _ (Or.inl rfl)) h2 hf
     exact Spaced.bin 0 top _ .add _ _ [' '] [' '] ['a'] _ (by decide) (hb _ (Or.inr rfl)) (hb _ (Or.inr rfl))
       (Spaced.ident _ ['a'] ⟨'a', [], rfl, by decide, by decide⟩) hm⟩
+
+/-! non-vacuity: `'A' + 0x1F`, a character literal and a number in another radix as leaves -/
+example : Spaced 0 (opLevel .add + 1) (.bin .add (.const (('A' : Char).toNat : Int)) (.const ((value 16 [(false, 1), (true, 15)] : Nat) : Int)))
+    "'A' + 0x1F".toList :=
+  Spaced.bin 0 top top .add _ _ [' '] [' '] ['\'', 'A', '\''] ('0' :: 'x' :: text [(false, 1), (true, 15)]) (by decide)
+    (by intro c hc; simp at hc; subst hc; decide) (by intro c hc; simp at hc; subst hc; decide)
+    (Spaced.chr _ 'A' (by decide))
+    (Spaced.num _ _ (value 16 [(false, 1), (true, 15)]) _ rfl (numText_hex _ (by decide) (by decide) (by decide)))
 
 end Avra.Props.C05pp
